@@ -6,6 +6,7 @@ Property theorems only; helper lemmas are in Lemmas/Layered.lean and Lemmas/Laye
 -/
 import KVerif.Lemmas.LayeredTick
 import KVerif.Gen.Consts
+import KVerif.Model.Kanata
 namespace KVerif.C04
 open KVerif.L KVerif.Spec.Layered
 
@@ -216,5 +217,45 @@ example : CfgFrag sampleCfg := by
   · intro e he
     simp only [sampleCfg, List.mem_cons, List.mem_nil_iff, or_false] at he
     rcases he with rfl | rfl | rfl <;> simp [Frag]
+
+/-! ### Beyond the bound of `Safe`: twelve and more layers held at once (known finding) -/
+
+/-- layers 1 … n held, activated in that order -/
+def heldN (n : Nat) : Layout :=
+  { cfg := { layers := [], srcKeys := [] },
+    states := (List.range n).map fun i => .layerModifier (i + 1) (0, 59 + i) }
+
+/-- **twelve_held_layers_skip_base_counterexample**: the statement searches "the held layers from most
+recently activated to oldest, then the base layer"; `LayerStack` has 12 entries, the held layers go in
+first and the base layer is pushed with `let _ = v.push(..)`: with twelve layers held the base layer
+(0) is not in the order the layout uses, and with thirteen the oldest held layer (1) is missing as
+well, while the layered machine of the specification has both. Reproduced on the real code
+(corpus/C04.txt, KNOWN_FINDINGS.jsonl); this is why `Safe` bounds the held layers by 10. -/
+theorem twelve_held_layers_skip_base_counterexample :
+    (heldN 12).transOrder = .ok [12, 11, 10, 9, 8, 7, 6, 5, 4, 3, 2, 1] ∧
+    searchOrder (km (heldN 12)) (abs (heldN 12)) = [12, 11, 10, 9, 8, 7, 6, 5, 4, 3, 2, 1, 0] ∧
+    (heldN 13).transOrder = .ok [13, 12, 11, 10, 9, 8, 7, 6, 5, 4, 3, 2] ∧
+    searchOrder (km (heldN 13)) (abs (heldN 13)) = [13, 12, 11, 10, 9, 8, 7, 6, 5, 4, 3, 2, 1, 0] ∧
+    (heldN 11).transOrder = .ok (searchOrder (km (heldN 11)) (abs (heldN 11))) := by
+  refine ⟨rfl, by decide, rfl, by decide, rfl⟩
+
+/-! ### The emission step: a key can be released twice (known finding) -/
+
+/-- two keys that both output `lsft` are held: the layout's key list, and with it `prev_keys`, holds
+`lsft` twice -/
+def dupWitness : K.KState :=
+  { layout := { cfg := { layers := [[]], srcKeys := [] } }, customs := [], keyOutputs := [[]],
+    mods := { codes := [42, 54, 56, 100, 29, 97, 125, 126], lsft := 42, rsft := 54 },
+    prevKeys := [42, 42] }
+
+/-- **duplicate_release_counterexample**: the OS events of the statement are "the ordered,
+de-duplicated diff of consecutive key lists"; presses are de-duplicated (`pressNew` extends `prev_keys`
+as it goes), releases are not: `prev_keys` keeps the duplicates of the layout's key list, and when all
+of them go away in the same tick (`(release-key lsft)`) the release loop emits `up lsft` twice.
+Reproduced on the real code (corpus/C04.txt, observable `OS=` of the C04 harness); known finding. -/
+theorem duplicate_release_counterexample :
+    (K.releaseOld dupWitness [] false).out = [.up 42, .up 42] ∧
+    (K.pressNew { dupWitness with prevKeys := [] } [42, 42]).out = [.down 42] := by
+  refine ⟨by decide, by decide⟩
 
 end KVerif.C04
